@@ -233,7 +233,22 @@ def check(case):
                                 "numbering %s)" % (len(exp_pairs - got_pairs), miss, len(got_pairs - exp_pairs), extra,
                                                    case["sections"], case["numbering"]),
                                 cls="bond-graph:" + ("repeat" if case["layout"].startswith("repeat") else case["numbering"]))
-    top = lib("load", MoleculeTop, path)
+    if case["n"] % 3 == 0:
+        with open(path) as fobj:                      # an opened file is accepted as well
+            top = lib("load", MoleculeTop, fobj)
+    else:
+        top = lib("load", MoleculeTop, path)
+    # residue view of the same atoms: consecutive atoms with equal (name, number) form one residue
+    groups = []
+    for an, rn, ri in exp_atoms:
+        if groups and groups[-1][0] == rn and groups[-1][1] == ri:
+            groups[-1][2] += 1
+        else:
+            groups.append([rn, ri, 1])
+    if list(top.resnames) != [g[0] for g in groups] or list(top.resids) != [g[1] for g in groups] or \
+            [tuple(x) for x in top.resname_len_list] != [(g[0], g[2]) for g in groups]:
+        raise PropertyViolation("residue-view", "resnames/resids/resname_len_list %r / %r / %r, the file has %r"
+                                % (top.resnames, top.resids, top.resname_len_list, groups))
     if top.name != case["name"] or len(top) != n:
         raise PropertyViolation("moleculetop", "MoleculeTop name/len %r/%d" % (top.name, len(top)))
     for k, at in enumerate(top):
